@@ -260,6 +260,14 @@ def _holder_prologue(p: Program, name: str, ci, ctor: ast.Call) -> List[ast.stmt
     pro: List[ast.stmt] = [ast.Assign(targets=[ast.Name(id=name, ctx=ast.Store())], value=copy.deepcopy(ctor), type_comment=None)]
     init = p.find_method(ci, "__init__")
     if init is None:
+        # a (data)class without written __init__: the fields the constructor call does not give start from their defaults and
+        # hold, inside one iteration, whatever the previous iterations left there
+        fields = list(ci.ann.keys())
+        given = set(fields[:len(ctor.args)]) | {k.arg for k in ctor.keywords if k.arg}
+        for f_ in fields:
+            if f_ not in given and f_ in ci.attrs:
+                pro.append(ast.Assign(targets=[ast.Attribute(value=ast.Name(id=name, ctx=ast.Load()), attr=f_, ctx=ast.Store())],
+                                      value=ast.Name(id=f"{name}__{f_}", ctx=ast.Load()), type_comment=None))
         return pro
     params = set(init.params[1:])
     for n in ast.walk(init.node):
